@@ -544,7 +544,7 @@ class C15(Check):
                 h = FR.fix_icmp6(g)
                 if h is not None and h != g: yield frame_case(h, "set+csum %s %d %02x" % (name, i, v))
         # 2. structure-aware and random
-        n = 14000 if tier == "quick" else 250000
+        n = 14000 if tier == "quick" else 140000
         for _ in range(n):
             yield self.g_structured(rng)
 
